@@ -193,4 +193,20 @@ def proposalValidateBasic (p : ProposalHdr) : Except PropErr Unit :=
   else if p.sigLen > maxSignatureSize then .error .sigTooBig
   else .ok ()
 
+/-! The block store as the keeper of part sets: `SaveBlock` stores part `i` of height `h` under
+`(h, i)` and the header in the block meta; `LoadBlockPart(h, i)` reads it back; `LoadBlock(h)`
+concatenates parts `0 .. total-1` of the meta's header and decodes. -/
+structure BStore where
+  blocks : List (Int × PartSet)
+deriving Repr
+
+def bsSave (st : BStore) (h : Int) (ps : PartSet) : BStore :=
+  { blocks := (h, ps) :: st.blocks.filter (fun e => e.1 != h) }
+def bsParts (st : BStore) (h : Int) : Option PartSet :=
+  (st.blocks.find? (fun e => e.1 == h)).map (·.2)
+/-- the bytes `LoadBlock` hands to the decoder -/
+def bsLoadBlock (st : BStore) (h : Int) : Option Bytes := (bsParts st h).map assemble
+def bsLoadPart (st : BStore) (h : Int) (i : Nat) : Option Part :=
+  (bsParts st h).bind fun ps => (ps.parts.getD i none)
+
 end Tmv.PartSet
